@@ -3,6 +3,8 @@ package main
 import (
 	"context"
 	"errors"
+	"math"
+	"os"
 	"runtime"
 	"sort"
 
@@ -10,6 +12,7 @@ import (
 	"github.com/prometheus/prometheus/promql/parser"
 
 	"github.com/thanos-community/promql-engine/engine"
+	"github.com/thanos-community/promql-engine/execution/model"
 	"github.com/thanos-community/promql-engine/execution/parse"
 
 	"verifharness/optrace"
@@ -20,9 +23,30 @@ import (
 
 var opSink = &vt.Sink{}
 
+// poisonNaN is a quiet NaN with a recognisable payload.
+var poisonNaN = math.Float64frombits(0x7ff8dead0000beef)
+
 func setup() {
 	optrace.Install()
 	optrace.Disable()
+	if os.Getenv("VREPLAY_POISON") != "0" {
+		// hook H3: a buffer on its way back into a vector pool is overwritten. By the pool's protocol
+		// nobody may look at it any more - its next owner may be another goroutine (the producer behind
+		// a concurrency operator, a worker) that writes to it at once; the overwrite plays that owner.
+		// Code that still reads the buffer then sees impossible sample IDs and a NaN instead of
+		// (in most schedules) its old contents, so a use after put shows in the result.
+		model.SetVerifPoolPut(func(ids []uint64, samples []float64, batch []model.StepVector) {
+			for i := range ids {
+				ids[i] = math.MaxUint64 >> 1
+			}
+			for i := range samples {
+				samples[i] = poisonNaN
+			}
+			for i := range batch {
+				batch[i] = model.StepVector{T: math.MinInt64}
+			}
+		})
+	}
 }
 
 func init() {
